@@ -92,7 +92,8 @@ func c07Extract(gen string, mark string) (string, bool) {
 func c07Name(tag string, avoid []string) string {
 	n := verifString(tag, 3)
 	for i := 0; i < 3; i++ {
-		verifAssume(n[i] >= 'a' && n[i] <= 'z')
+		verifAssume(n[i] >= 'a')
+		verifAssume(n[i] <= 'z')
 	}
 	for _, a := range avoid {
 		verifAssume(n != a)
@@ -143,7 +144,10 @@ func Harness_C07_Context() {
 	n1 := c07Name("n1", avoid)
 	n2 := c07Name("n2", append(avoid, n1))
 	n3, n4 := "zed", "qux"
-	verifAssume(n1 != n3 && n1 != n4 && n2 != n3 && n2 != n4)
+	verifAssume(n1 != n3)
+	verifAssume(n1 != n4)
+	verifAssume(n2 != n3)
+	verifAssume(n2 != n4)
 	unrel := []string{
 		"let " + n1 + " (q:int) =\n  let w = q * 2\n  w + 1\n",
 		"type " + n2 + " = {P" + n2 + ": int; Q" + n2 + ": string}\n",
